@@ -1059,3 +1059,23 @@ benign(
     ["C07", "C08"],
     (ASYNC, "        if batch_size is not None and len(pending) < batch_size:\n            inputs = next(input_batches, None)  # type: ignore\n", "        if batch_size is not None and not len(pending) >= batch_size:\n            inputs = next(input_batches, None)  # type: ignore\n"),
 )
+
+# ---------------------------------------------------------------- round 5: MULTI-EDGE-1, CHUNKMEM-1, RESUME-PROVIDER-1
+ZV3 = "cubed/storage/stores/zarr_python_v3.py"
+_GRP_ANCHOR = "    def set_basic_selection(self, selection, value, fields=None):\n        self[fields][selection] = value\n"
+mutant("M03m-source-count-by-distinct-neighbours", ["C03", "C04"], "MULTI-EDGE-1", (OPT, "        for array in predecessors_unordered(dag, name)\n    )", "        for array in dag.predecessors(name)\n    )"))
+mutant("M03n-helper-walks-neighbour-set", ["C03", "C04"], "MULTI-EDGE-1", (OPT, "    for pre, _ in dag.in_edges(name):\n        yield pre\n", "    for pre in dag.predecessors(name):\n        yield pre\n"))
+benign("B03m-source-count-by-in-edges", ["C03", "C04"], (OPT, "        for array in predecessors_unordered(dag, name)\n    )", "        for array, _ in dag.in_edges(name)\n    )"))
+mutant("M03o-average-chunk-memory", ["C03", "C04"], "CHUNKMEM-1", (ARRAY, "        return array_memory(self.dtype, self.chunksize)\n", "        return self.nbytes // max(self.npartitions, 1)\n"))
+benign("B03o-chunk-memory-via-local", ["C03", "C04"], (ARRAY, "        return array_memory(self.dtype, self.chunksize)\n", "        largest = self.chunksize\n        return array_memory(self.dtype, largest)\n"))
+mutant(
+    "M09p-group-completeness-from-first-field",
+    ["C09", "C07"],
+    "RESUME-PROVIDER-1",
+    (ZV3, _GRP_ANCHOR, _GRP_ANCHOR + "\n    @property\n    def ndim(self):\n        return len(self.shape)\n\n    @property\n    def nchunks(self):\n        return list(self.values())[0].nchunks\n\n    @property\n    def nchunks_initialized(self):\n        return list(self.values())[0].nchunks_initialized\n"),
+)
+benign(
+    "B09p-group-completeness-over-all-fields",
+    ["C09", "C07"],
+    (ZV3, _GRP_ANCHOR, _GRP_ANCHOR + "\n    @property\n    def ndim(self):\n        return len(self.shape)\n\n    @property\n    def nchunks(self):\n        return next(iter(self.values())).nchunks\n\n    @property\n    def nchunks_initialized(self):\n        return min(a.nchunks_initialized for a in self.values())\n"),
+)
